@@ -159,31 +159,37 @@ def main() -> int:
             all_results.extend(res)
             metas[key] = meta
 
-    # ---- dependency closure (depth 1): a caller is checked against the callee's contract, so every function whose
-    # contract this property's own functions apply at a call site / attribute read is verified in this check too.
+    # ---- dependency closure: a caller is checked against the callee's contract, so every function whose contract this
+    # property's own functions apply at a call site / attribute read is verified in this check too, and so on for those
+    # functions, down to ``closure_depth`` levels (default 2; the full transitive closure is most of the library).
     # Callees that carry an open known finding or a bounded stand-in are verified under their own property only
     # (listed in the evidence); deeper levels are covered by the checks of the properties that own those functions.
     closure_added: list[str] = []
     closure_skipped: list[str] = []
-    if not a.only and cfg.get("closure", True):
-        used = sorted({u for m in metas.values() for u in m.get("contracts_used", [])})
+    depth = int(cfg.get("closure_depth", 2)) if cfg.get("closure", True) else 0
+    if not a.only and depth > 0:
         sp0 = os.path.join(VERIF, "BOUNDED_STANDINS.json")
         special = [o.split("/")[0] for f in load_known() if f.get("status", "open") == "open" for o in f["obligations"]]
         special += [o.split("/")[0] for b in (json.load(open(sp0))["standins"] if os.path.exists(sp0) else []) for o in b["obligations"]]
-        for k2 in closure_keys(repo, reg, used):
-            if k2 in keys:
-                continue
-            if k2 in special or k2 in cfg.get("closure_exclude", ()):
-                closure_skipped.append(k2)
-                continue
-            closure_added.append(k2)
-        if closure_added:
-            saved_only = _V.only_clauses
-            with ctx.Pool(max(1, min(a.jobs, len(closure_added)))) as pool:
-                for key, res, meta in pool.imap_unordered(_work, closure_added):
+        frontier = list(keys)
+        for level in range(depth):
+            used = sorted({u for k0 in frontier for u in metas.get(k0, {}).get("contracts_used", [])})
+            nxt = []
+            for k2 in closure_keys(repo, reg, used):
+                if k2 in keys or k2 in closure_added or k2 in closure_skipped:
+                    continue
+                if k2 in special or k2 in cfg.get("closure_exclude", ()):
+                    closure_skipped.append(k2)
+                    continue
+                nxt.append(k2)
+            if not nxt:
+                break
+            with ctx.Pool(max(1, min(a.jobs, len(nxt)))) as pool:
+                for key, res, meta in pool.imap_unordered(_work, nxt):
                     all_results.extend(res)
                     metas[key] = meta
-            _V.only_clauses = saved_only
+            closure_added.extend(nxt)
+            frontier = nxt
 
     # spec-level lemma obligations (no code involved): discharged by z3 on every run
     import z3 as _z3
@@ -383,7 +389,7 @@ def main() -> int:
             "checker_cmd": f"./check {pid} --tier {a.tier}",
             "trusted_base": ["pyvc (this repository)", "z3 5.1 (python3-vt)", "CPython semantics as stated in DESIGN.md 2.2"],
             "functions_under_contract": funcs,
-            "dependency_closure": {"depth": 1, "callees_verified_here": sorted(closure_added),
+            "dependency_closure": {"depth": depth, "callees_verified_here": sorted(closure_added),
                                    "callees_verified_under_their_own_property_only": sorted(closure_skipped)},
             "functions_not_verified": skipped_funcs,
             "function_source_hashes": {k: m.get("source_hash") for k, m in metas.items()},
@@ -392,7 +398,7 @@ def main() -> int:
             "solver_seconds": round(solver_s, 3),
             "samples": samples,
             "law_library": {"lean_proved": len(laws["lean_proved"]), "assumed_bounded_checked_only": laws["assumed_bounded_checked_only"],
-                            "note": "Lean theorems in lean/RelAlg/Laws.lean over the concrete model lean/RelAlg/Spec.lean (statements transcribed by hand from spec/laws.py, "
+                            "note": "Lean theorems in lean/RelAlg/Laws.lean over the concrete model lean/RelAlg/Spec.lean (each law's statement is generated from spec/laws.py into lean/RelAlg/Generated.lean and must be closed by the theorem, "
                                     "13 of them with the hypothesis that rows are masked to their column set, which every operator preserves: lean/RelAlg/Lemmas.lean)"},
             "slowest_discharged": sorted([(r.get("seconds", 0), r["label"]) for r in all_results if r["status"] == PROVED], reverse=True)[:8],
             "known_findings_seen": known_seen,
